@@ -1,5 +1,3 @@
-
-
 package scen
 
 import (
@@ -86,6 +84,8 @@ func doStep(u *hist.Universe, d hist.Driver, s step) string {
 		return fmt.Sprintf("Prefix(%s)=%v", u.KeyStr[s.k], hist.Collect(d.Seq(hist.Query{Kind: hist.SeqPrefix, A: s.k})))
 	case "topk":
 		return fmt.Sprintf("TopK(%d)=%v", s.n, hist.Collect(d.Seq(hist.Query{Kind: hist.SeqTopK, N: uint(s.n)})))
+	case "bottomk":
+		return fmt.Sprintf("BottomK(%d)=%v", s.n, hist.Collect(d.Seq(hist.Query{Kind: hist.SeqBottomK, N: uint(s.n)})))
 	}
 	panic("bad step " + s.kind)
 }
@@ -303,6 +303,29 @@ func Scenarios(tier string) []*Scenario {
 	c1 := threadSpec{u: cu, tree: 0, steps: []step{{kind: "search", k: cu.Free[0]}, {kind: "range", k: cu.Free[0], b: cu.Free[2]}, {kind: "all-stop", n: 2}}}
 	c2 := threadSpec{u: cu, tree: 0, steps: []step{{kind: "max"}, {kind: "search", k: cu.DelExtra[0]}, {kind: "backward"}}}
 	out = append(out, build("readers-2/compound", "two goroutines querying one quiescent compound tree (16-byte shared path)", 1, []threadSpec{c1, c2}))
+	// every kind of read-only call, by both goroutines, none of them made before on this tree (anything a query
+	// memoises on first use is written by both); open-ended ranges included (the empty key as a bound)
+	every := hist.NewAlphaUniverse(hist.AlphaSpec{Name: "S-EVERY", Setup: []string{P(12) + "x", P(12) + "y", "a", "ab", "k1"},
+		Free: []string{"a", P(12) + "x", "k1"}, Probes: []string{"", "zz"}, Prefixes: []string{P(12)}, NoAutoP: true}, "string")
+	eIdx := func(k string) int {
+		for i, s := range every.KeyStr {
+			if s == fmt.Sprintf("%q", k) {
+				return i
+			}
+		}
+		panic("no key " + k)
+	}
+	eEmpty, eA, eX, eK, eZ := eIdx(""), eIdx("a"), eIdx(P(12)+"x"), eIdx("k1"), eIdx("zz")
+	bundle := []step{{kind: "range", k: eA, b: eEmpty}, {kind: "range", k: eEmpty, b: eK}, {kind: "range", k: eA, b: eX}, {kind: "search", k: eX}, {kind: "search", k: eZ},
+		{kind: "min"}, {kind: "max"}, {kind: "size"}, {kind: "prefix", k: every.Prefixes[0]}, {kind: "topk", n: 1}, {kind: "bottomk", n: 1}, {kind: "all-stop", n: 2}, {kind: "backward"}}
+	rev := make([]step, len(bundle))
+	for i, st := range bundle {
+		rev[len(bundle)-1-i] = st
+	}
+	out = append(out, build("readers-2/alpha-every-query", "two goroutines, each making every kind of read-only call (incl. open-ended ranges) on one quiescent byte-string tree, in opposite orders", 1,
+		[]threadSpec{{u: every, tree: 0, steps: bundle}, {u: every, tree: 0, steps: rev}}))
+	out = append(out, build("readers-2/alpha-every-query-same-order", "the same, both goroutines in the same order", 1,
+		[]threadSpec{{u: every, tree: 0, steps: bundle}, {u: every, tree: 0, steps: bundle}}))
 	if th {
 		r3 := threadSpec{u: shared, tree: 0, steps: []step{{kind: "backward"}, {kind: "search", k: kx}, {kind: "prefix", k: shared.Prefixes[2]}}}
 		out = append(out, build("readers-3/alpha", "three goroutines querying one quiescent byte-string tree", 1, []threadSpec{r1, r2, r3}))
@@ -317,7 +340,6 @@ func fanKeys(prefix string, n int) []string {
 	}
 	return out
 }
-
 
 // GCScenarios: one goroutine, representative histories; the collector may run at any statement (C18).
 func GCScenarios(tier string) []*Scenario {
